@@ -96,6 +96,27 @@ def h_build(shape):
                         tmpl.build(**dict(bad, **({"qubits": P["qubits"]} if P.get("qubits") else {})))
                     except Exception:  # noqa: BLE001
                         pass
+                if len(builds) == 1:
+                    # what the caller does with things the template HANDED OUT stays outside the template: the returned variable
+                    # dict is edited, a derived sequence declares a variable of its own, and a call using a variable of ANOTHER
+                    # sequence is refused -- the template is still parametrized, declares the same variables and builds the same
+                    names0 = sorted(tmpl.declared_variables)
+                    tmpl.declared_variables.pop(names0[0], None) if names0 else None
+                    tmpl.declared_variables["zz_injected"] = None
+                    try:
+                        derived = tmpl.switch_register(tmpl.register)
+                        derived.declare_variable("zz_derived")
+                    except Exception:  # noqa: BLE001  (e.g. mappable registers cannot be switched)
+                        pass
+                    try:
+                        import pulser as _p
+
+                        foreign = _p.Sequence(_p.Register.square(2, spacing=6, prefix="f"), _p.MockDevice).declare_variable(names0[0] if names0 else "x")
+                        tmpl.delay(foreign, list(tmpl.declared_channels)[0])
+                        obs.append(("build:foreign_variable_refused", False))
+                    except Exception:  # noqa: BLE001
+                        pass
+                    obs.append(("build:template_variables_unchanged", sorted(tmpl.declared_variables) == names0 and tmpl.is_parametrized()))
                 # (a mappable register is resolved to OTHER traps in the second build)
                 alt = bool(P.get("qubits_alt")) and len(builds) == 1
                 qmap = P["qubits_alt"] if alt else P.get("qubits")
